@@ -79,6 +79,8 @@ def run_case(case, cid):
     nm = pure.Namer(case["labels"], matrix)
     from fractions import Fraction
     sc = Fraction(2) ** (-40 if (cid % 7 == 3 and case["op"] != "subsym") else 0)     # real coefficients far below 1
+    if case["op"] == "normalize" and cid % 7 == 5:
+        sc = Fraction(2) ** 1021          # ... and near the top of the floating-point range (the result is of ordinary size)
     model = cls({k: v * float(sc) for k, v in case["terms"].items()} if sc != 1 else case["terms"])
     if case["kind"] != "dict" and cid % 5 == 0:
         # a model object with history: a term over one more label came and went (its caches still mention the label)
